@@ -96,9 +96,12 @@ class C14(Prop):
         # the wrapped function has keyword parameters named like the decorator's own options
         extra_kwargs = {"limit": 77, "delay": 0.5, "catching": 1, "function": 2, "attempt": 3} if s.chance(1, 3, "odd-kwargs") else {}
         pre_cancelled = is_async and profile != "async-sweep" and s.chance(1, 6, "pre-cancelled")
+        # the wrapped callable need not be a plain function: functools.partial (no __name__), or a callable instance
+        callable_kind = s.weighted((4, 1, 1), "callable-kind")
         sim.program = {"variant": profile, "limit": limit, "catching": catching_name, "delay": delay_name,
                        "calls": calls, "delay_table": table, "extra_kwargs": sorted(extra_kwargs),
                        "caller_swallowed_a_cancel_before": int(pre_cancelled),
+                       "wrapped_callable": ("function", "functools.partial", "callable instance")[callable_kind if not (is_async and callable_kind == 2) else 1],
                        "cancel_at_iteration": sim.inject_choice if profile == "async-sweep" else 0}
 
         if catching_make is None:
@@ -187,7 +190,24 @@ class C14(Prop):
             kw["delay"] = delay_arg
         if catching_make is not None:
             kw["catching"] = catching_make()
-        wrapped = retry(**kw)(fn)
+        import functools
+        if callable_kind == 1 or (is_async and callable_kind == 2):
+            def _shift(_marker, *a, **k):
+                return fn(*a, **k)
+            if is_async:
+                async def _ashift(_marker, *a, **k):
+                    return await fn(*a, **k)
+                target = functools.partial(_ashift, "bound")
+            else:
+                target = functools.partial(_shift, "bound")
+        elif callable_kind == 2:
+            class CallableObject:
+                def __call__(self, *a, **k):
+                    return fn(*a, **k)
+            target = CallableObject()
+        else:
+            target = fn
+        wrapped = retry(**kw)(target)
 
         async def caller(ci):
             out = per[ci]["out"]
@@ -294,7 +314,9 @@ class C14(Prop):
                               f"(limit={limit}, outcomes={seq}, catching={catching_name}, overlapping={ncalls > 1}); caller got "
                               f"{out['kind']} {out['obj']!r}",
                               delta="more" if len(attempts) > exp_calls else "fewer",
-                              delay=delay_name if out["kind"] == "raised" and isinstance(out["obj"], TypeError) else "-")
+                              delay=delay_name if out["kind"] == "raised" and isinstance(out["obj"], TypeError) else "-",
+                              **({"error": type(out["obj"]).__name__, "callable": sim.program["wrapped_callable"]}
+                                 if out["kind"] == "raised" and isinstance(out["obj"], (AttributeError, NameError)) else {}))
                 return
             got_kind, got_obj = out["kind"], out["obj"]
             if not (got_kind == exp[0] and got_obj is exp[1]):
